@@ -48,7 +48,7 @@ package first
 //@   requires [fs] firstSets != nil
 //@   # heap well-typedness: the recorded sets are objects that exist on entry
 //@   requires [sets-allocated] forallS(s, imp(has(firstSets.firstSets, s), 0 <= firstSets.firstSets[s] && firstSets.firstSets[s] < alloc()))
-//@   ensures [fresh] first != nil
+//@   ensures [fresh] first != nil && first >= old(alloc())
 //@   ensures [members] forallS(k, imp(k != "empty", has(first, k) == some(i, 0, len(symbols), inFirst(firstSets, symbols[i], k) && all(j, 0, i, nullableAt(firstSets, symbols, j)))))
 //@   ensures [nullable] has(first, "empty") == (len(symbols) > 0 && all(j, 0, len(symbols), nullableAt(firstSets, symbols, j)))
 //@   assigns nothing
@@ -57,3 +57,98 @@ package first
 //@     invariant [flag] containEmpty == all(j, 0, i, nullableAt(firstSets, symbols, j))
 //@     invariant [members] forallS(k, has(first, k) == some(m, 0, i, inFirst(firstSets, symbols[m], k) && all(j, 0, m, nullableAt(firstSets, symbols, j))))
 //@     decreases len(symbols) - i
+//@
+//@ # ---- the fixed point (C02, C04, C06): GetFirstSets stops only when every production is closed ----
+//@ func (SymbolSet).Equal
+//@   prop C02
+//@   ensures [subset] imp(result, forallS(k, imp(has(this, k), has(that, k))))
+//@   assigns nothing
+//@   loop 1
+//@     invariant [seen] forallS(k, imp(visited(1, k), has(that, k)))
+//@
+//@ # recorded(fs, id, k): k is recorded in the set of nonterminal id
+//@ spec recorded(fs *FirstSets, id string, k string) bool = has(fs.firstSets, id) && has(fs.firstSets[id], k)
+//@
+//@ # heap shape of a FirstSets object: every recorded set is an allocated map object of its own
+//@ spec setsWF(fs *FirstSets) bool = fs != nil && fs.firstSets != nil && forallS(s, imp(has(fs.firstSets, s), 0 < fs.firstSets[s] && fs.firstSets[s] < alloc()))
+//@   | && forallS(s, forallS(t, imp(has(fs.firstSets, s) && has(fs.firstSets, t) && s != t, fs.firstSets[s] != fs.firstSets[t])))
+//@
+//@ spec terminalSet(fs *FirstSets, id string) SymbolSet = fs.firstSets[id]
+//@ func (*FirstSets).AddToken
+//@   prop C02
+//@   requires [wf] setsWF(this)
+//@   ensures [added] recorded(this, prodName, terminal)
+//@   ensures [flag] symbolAdded == !old(recorded(this, prodName, terminal))
+//@   ensures [grow] forallS(s, forallS(k, imp(old(recorded(this, s, k)), recorded(this, s, k))))
+//@   ensures [only] forallS(s, forallS(k, imp(recorded(this, s, k), old(recorded(this, s, k)) || (s == prodName && k == terminal))))
+//@   ensures [wf] setsWF(this)
+//@   ensures [keep-sets] forallS(s, imp(old(has(this.firstSets, s)), has(this.firstSets, s) && this.firstSets[s] == old(this.firstSets[s])))
+//@   ensures [new-set] imp(!old(has(this.firstSets, prodName)), this.firstSets[prodName] >= old(alloc()))
+//@   ensures [keys] forallS(s, imp(has(this.firstSets, s), old(has(this.firstSets, s)) || s == prodName))
+//@   ensures [nochange] imp(!symbolAdded, same(mapof(this.firstSets)) && same(mapof(terminalSet(this, prodName))))
+//@   assigns mapof(this.firstSets), mapof(ite(has(this.firstSets, prodName), this.firstSets[prodName], nil))
+//@
+//@ func (*FirstSets).AddSet
+//@   prop C02
+//@   requires [wf] setsWF(this)
+//@   requires [other] forallS(s, imp(has(this.firstSets, s), this.firstSets[s] != terminals)) && terminals < alloc()
+//@   ensures [added] forallS(k, imp(has(terminals, k), recorded(this, prodName, k)))
+//@   ensures [flag] symbolsAdded == existsS(k, has(terminals, k) && !old(recorded(this, prodName, k)))
+//@   ensures [grow] forallS(s, forallS(k, imp(old(recorded(this, s, k)), recorded(this, s, k))))
+//@   ensures [only] forallS(s, forallS(k, imp(recorded(this, s, k), old(recorded(this, s, k)) || (s == prodName && has(terminals, k)))))
+//@   ensures [wf] setsWF(this)
+//@   ensures [keep-sets] forallS(s, imp(old(has(this.firstSets, s)), has(this.firstSets, s) && this.firstSets[s] == old(this.firstSets[s])))
+//@   ensures [keys] forallS(s, imp(has(this.firstSets, s), old(has(this.firstSets, s)) || s == prodName))
+//@   ensures [new-set] imp(!old(has(this.firstSets, prodName)) && has(this.firstSets, prodName), this.firstSets[prodName] >= old(alloc()))
+//@   ensures [nochange] imp(!symbolsAdded, same(mapof(this.firstSets)) && same(mapof(terminals)))
+//@   assigns mapof(this.firstSets), mapof(ite(has(this.firstSets, prodName), this.firstSets[prodName], nil))
+//@   loop 1
+//@     invariant [nochange] symbolsAdded || (same(mapof(this.firstSets)) && same(mapof(terminals)))
+//@     invariant [wf] setsWF(this)
+//@     invariant [keep-sets] forallS(s, imp(old(has(this.firstSets, s)), has(this.firstSets, s) && this.firstSets[s] == old(this.firstSets[s])))
+//@     invariant [new-set] imp(!old(has(this.firstSets, prodName)) && has(this.firstSets, prodName), this.firstSets[prodName] >= old(alloc()))
+//@     invariant [keys] forallS(s, imp(has(this.firstSets, s), old(has(this.firstSets, s)) || s == prodName))
+//@     invariant [terminals] forallS(k, has(terminals, k) == old(has(terminals, k)))
+//@     invariant [added] forallS(k, imp(visited(1, k), recorded(this, prodName, k)))
+//@     invariant [flag] symbolsAdded == existsS(k, visited(1, k) && !old(recorded(this, prodName, k)))
+//@     invariant [grow] forallS(s, forallS(k, imp(old(recorded(this, s, k)), recorded(this, s, k))))
+//@     invariant [only] forallS(s, forallS(k, imp(recorded(this, s, k), old(recorded(this, s, k)) || (s == prodName && visited(1, k)))))
+//@
+//@ func stringList
+//@   prop C02
+//@   requires [symbols] all(i, 0, len(symbols), isSym(symbols[i]))
+//@   ensures [len] len(result) == len(symbols) && arr(result) >= old(alloc())
+//@   ensures [names] all(i, 0, len(symbols), result[i] == SymStr(symbols[i]))
+//@   assigns nothing
+//@   loop 1
+//@     invariant [sl] len(sl) == len(symbols) && arr(sl) >= old(alloc())
+//@     invariant [names] all(k, 0, range_i1, sl[k] == SymStr(symbols[k]))
+//@
+//@ # C02/C04/C06: the FIRST sets gocc computes are closed under the three rules of the fixed-point iteration, i.e. the
+//@ # iteration stops only when no production can add anything:
+//@ #   A : empty        =>  "empty" in FIRST(A)
+//@ #   A : t ...        =>  t in FIRST(A)                       (t a terminal)
+//@ #   A : X1 ... Xn    =>  FIRST(X1 ... Xn) subset of FIRST(A)  (X1 a nonterminal; FIRST of a string as in FirstS)
+//@ spec prodWF(pr *ast.SyntaxProd) bool = pr != nil && pr.Body != nil && all(i, 0, len(pr.Body.Symbols), isSym(pr.Body.Symbols[i]))
+//@ spec symAt(pr *ast.SyntaxProd, i int) string = SymStr(pr.Body.Symbols[i])
+//@ spec nullableSym(fs *FirstSets, pr *ast.SyntaxProd, j int) bool = inFirst(fs, symAt(pr, j), "empty")
+//@ spec inFirstBody(fs *FirstSets, pr *ast.SyntaxProd, k string) bool = ite(k == "empty", len(pr.Body.Symbols) > 0 && all(j, 0, len(pr.Body.Symbols), nullableSym(fs, pr, j)),
+//@   | some(i, 0, len(pr.Body.Symbols), inFirst(fs, symAt(pr, i), k) && all(j, 0, i, nullableSym(fs, pr, j))))
+//@ opaque spec closedProd(fs *FirstSets, pr *ast.SyntaxProd) bool = ite(len(pr.Body.Symbols) == 0, recorded(fs, pr.Id, "empty"),
+//@   | ite(IsTermF(fs.symbols, symAt(pr, 0)), recorded(fs, pr.Id, symAt(pr, 0)), forallS(k, imp(inFirstBody(fs, pr, k), recorded(fs, pr.Id, k)))))
+//@
+//@ func GetFirstSets
+//@   prop C02 C04 C06
+//@   requires [grammar] g != nil && imp(g.SyntaxPart != nil, all(p, 0, len(g.SyntaxPart.ProdList), prodWF(g.SyntaxPart.ProdList[p])))
+//@   ensures [wf] setsWF(result) && result.symbols == symbols
+//@   ensures [closed] imp(g.SyntaxPart != nil, all(p, 0, len(g.SyntaxPart.ProdList), closedProd(result, g.SyntaxPart.ProdList[p])))
+//@   assigns nothing
+//@   loop 1
+//@     invariant [wf] setsWF(firstSets) && firstSets >= old(alloc()) && firstSets.symbols == symbols && firstSets.firstSets >= old(alloc())
+//@     invariant [fresh-sets] forallS(s, imp(has(firstSets.firstSets, s), firstSets.firstSets[s] >= old(alloc())))
+//@     invariant [closed] again || all(p, 0, len(g.SyntaxPart.ProdList), closedProd(firstSets, g.SyntaxPart.ProdList[p]))
+//@   loop 2
+//@     invariant [wf] setsWF(firstSets) && firstSets >= old(alloc()) && firstSets.symbols == symbols && firstSets.firstSets >= old(alloc())
+//@     invariant [fresh-sets] forallS(s, imp(has(firstSets.firstSets, s), firstSets.firstSets[s] >= old(alloc())))
+//@     invariant [closed-so-far] again || all(p, 0, range_i2, closedProd(firstSets, g.SyntaxPart.ProdList[p]))
+//@     step [closed-now] again || closedProd(firstSets, g.SyntaxPart.ProdList[range_i2])
